@@ -66,9 +66,11 @@ def run_trace(cfg, ops):
     try:
         os.chdir(tmp)
         narch = [0]
+        urls = {}
         def mk(contents=None, kind=None):
             narch[0] += 1
             a = new_archive(kind or cfg['kind'], tmp, narch[0])
+            if (kind or cfg['kind']) == 'sql': urls[id(a)] = 'sqlite:///%s' % os.path.join(tmp, 's%d.db' % narch[0])
             for k, v in (contents or []): a[K(k)] = PV(v)
             return a
         a0 = mk(cfg['pre_arch'])
@@ -76,6 +78,16 @@ def run_trace(cfg, ops):
         for k, v in cfg['pre_mem']: c[K(k)] = PV(v)
         def pairs(d):
             if isinstance(d, null_archive): return None
+            if id(d) in urls:
+                # a database table is read through a FRESH handle (another connection): what the cache wrote must be in the store, not pending
+                # in the writing handle's transaction
+                import klepto.archives as ka
+                h = ka.sqltable_archive(urls[id(d)], cached=False)
+                try: items = list(h.items())
+                finally:
+                    try: h._conn.close()
+                    except Exception: pass
+                return sorted([int(k[1:]), VN(v)] for k, v in items)
             items = d.__asdict__().items() if hasattr(d, '__asdict__') else d.items()
             return sorted([int(k[1:]), VN(v)] for k, v in items)
         def lastwins(l):
